@@ -709,6 +709,12 @@ class Walker:
                     raise Opaque(f"{name} is synced inside a loop that does not index it")
                 lid = self.new_loop()
                 return [("sc", ("w", n[1]), name + "#len"), ("rep", ("var", name + "#len", list(uses)), lid, [("sc", ("w", 1), name + "#chr[]")])]
+            tt = t.replace("nifly::", "")
+            if tt in self.tr.syncs and len(self.tr.syncs[tt].get("params", [])) == 2 and uses == self.loops:
+                # elem.Sync(stream, n): the by-value parameter reads the argument's value
+                w = Walker(self.tr, tt, name, uses)
+                w.vars[self.tr.syncs[tt]["params"][1]] = ("expr", n)
+                return w.block(Walker.body_of(self.tr.syncs[tt]["body"]))
             raise Opaque("two-argument Sync of member type " + t)
         if cn == "SyncSize" and obj is not None and len(args) == 1:
             name, uses, _ = self.lval(obj)
